@@ -317,7 +317,7 @@ func genStep(rt *rapid.T, p *Profile, cfg *Config, i int) Step { //nolint:cyclop
 			st.Split = rapid.SampledFrom([]int{0, 0, 1, 4, 4, 4, 8}).Draw(rt, "split") // 4: right behind the ChannelData header
 		}
 		if rapid.IntRange(0, 3).Draw(rt, "nopad") == 0 {
-			st.Pad = "none"
+			st.Pad = rapid.SampledFrom([]string{"none", "none", "extra"}).Draw(rt, "padKind")
 		}
 	case "PeerData":
 		st.P = []int{peer("p")}
